@@ -54,6 +54,16 @@ Definition can_remkey (k : kind) : bool :=
   match k with KArray | KPoolList => false | _ => true end.
 (* Map and MultiMap have no swap *)
 Definition can_swap (k : kind) : bool := match k with KMap | KMultiMap => false | _ => true end.
+(* explicit Array(usize capacity), HashMap(usize capacity), HashSet(usize capacity), PoolMap(usize capacity) *)
+Definition has_capctor (k : kind) : bool :=
+  match k with KArray | KHashMap | KHashSet | KPoolMap => true | _ => false end.
+(* find(const T&): every kind but PoolList *)
+Definition can_find (k : kind) : bool := match k with KPoolList => false | _ => true end.
+(* insert(const Iterator& position, key, value) with a position HINT: Map and MultiMap *)
+Definition can_hint (k : kind) : bool := sorted k.
+Definition can_sort (k : kind) : bool := match k with KList => true | _ => false end.
+(* PoolList::append(args...): the element is constructed in place from 0..7 constructor arguments *)
+Definition can_emplace (k : kind) : bool := match k with KPoolList => true | _ => false end.
 
 (* ---------------------------------------------------------------------------------------- *)
 (* operations                                                                                 *)
@@ -88,9 +98,22 @@ Inductive op :=
 | OAppendRange (x y i n : nat)     (* Array::append(const T* values, usize n) with values = &y[i],
                                       i + n <= size of y; y may be x: a pointer into the array's own
                                       storage *)
-| ORemVia (v : rvia) (x i : nat).  (* VIter: Array::remove(const Iterator&) at index i (for the node
+| ORemVia (v : rvia) (x i : nat)   (* VIter: Array::remove(const Iterator&) at index i (for the node
                                       containers ORemAt already is remove(iterator));
                                       VFront / VBack: removeFront() / removeBack(), non-empty x *)
+| ONewCap (x : nat) (k : kind) (n : nat)
+                                   (* Array(n) / HashMap(n) / HashSet(n) / PoolMap(n) in the dead variable x *)
+| OFind (x : nat) (ka : arg)       (* find(key) / Array,List::find(value): changes nothing *)
+| OEmplace (x : nat) (args : list arg)
+                                   (* PoolList::append(a1, ..., an), n <= 7: the element is constructed in place
+                                      from the arguments (values or references to stored elements, possibly
+                                      its own); the element type adds its arguments up *)
+| OAppendVals (x : nat) (zs : list Z)
+                                   (* Array::append(const T* values, usize n) with values pointing at n
+                                      elements that live outside every container *)
+| OInsHint (x : nat) (p : pos) (ka va : arg)
+                                   (* Map,MultiMap::insert(position, key, value): p is the hint *)
+| OSort (x : nat).                 (* List::sort() *)
 
 (* ---------------------------------------------------------------------------------------- *)
 (* pure list helpers (shared with the model)                                                  *)
@@ -221,6 +244,50 @@ Definition via_idx (v : rvia) (k : kind) (len i : nat) : option nat :=
 Definition spec_resize (l : acont) (n : nat) (vz : Z) : acont :=
   firstn n l ++ repeat (None, Some vz) (n - length l).
 
+(* the values a list of arguments denotes *)
+Fixpoint sarg_vals (s : sstate) (args : list arg) : option (list Z) :=
+  match args with
+  | [] => Some []
+  | a :: r => match sarg_val s a, sarg_vals s r with
+              | Some z, Some zs => Some (z :: zs)
+              | _, _ => None
+              end
+  end.
+Definition zsum (l : list Z) : Z := fold_right Z.add 0%Z l.
+
+(* sorting by payload *)
+Fixpoint zinsert (z : Z) (l : list Z) : list Z :=
+  match l with
+  | [] => [z]
+  | h :: t => if Z.leb z h then z :: l else h :: zinsert z t
+  end.
+Fixpoint zsort (l : list Z) : list Z :=
+  match l with [] => [] | h :: t => zinsert h (zsort t) end.
+Definition spec_sort (l : acont) : acont :=
+  map (fun z => (None, Some z)) (zsort (map (fun n : anode => oz (snd n)) l)).
+
+(* A position hint never changes WHERE a key goes, with one exception that this reference object
+   leaves open: in a MultiMap, when the hinted element's key is not greater than the new key and the
+   element after it carries exactly the new key, the new element lands somewhere inside the run of
+   equal keys that follows (where exactly depends on the shape of the search tree - C01).  Such a
+   call is not part of the histories considered here. *)
+Definition hint_tie (k : kind) (keys : list Z) (h : nat) (kz : Z) : bool :=
+  negb (unique k) &&
+  match nth_error keys h, nth_error keys (S h) with
+  | Some hk, Some nk => Z.leb hk kz && Z.eqb nk kz
+  | _, _ => false
+  end.
+
+(* what find returns: the index of the first element with that key / value *)
+Definition spec_found (s : sstate) (x : nat) (ka : arg) : option nat :=
+  match sget s x with
+  | Some (k, l) => match (if has_key k then sarg_key s ka else sarg_val s ka) with
+                   | Some z => find_idx z (asel k l)
+                   | None => None
+                   end
+  | None => None
+  end.
+
 (* spec_step s o = (performed?, new state).  An operation whose variables / references do not
    exist, or that the kind does not offer, is not performed (the harness does not call it). *)
 Definition spec_step (s : sstate) (o : op) : bool * sstate :=
@@ -317,6 +384,53 @@ Definition spec_step (s : sstate) (o : op) : bool * sstate :=
           end
       | None => (false, s)
       end
+  | ONewCap x k n => if sdead s x && has_capctor k then (true, sset s x (Some (k, []))) else (false, s)
+  | OFind x ka =>
+      match sget s x with
+      | Some (k, l) =>
+          if can_find k then
+            match (if has_key k then sarg_key s ka else sarg_val s ka) with
+            | Some z => (true, s)
+            | None => (false, s)
+            end
+          else (false, s)
+      | None => (false, s)
+      end
+  | OEmplace x args =>
+      match sget s x with
+      | Some (k, l) =>
+          if can_emplace k && (length args <=? 7) then
+            match sarg_vals s args with
+            | Some zs => (true, sset s x (Some (k, l ++ [mk_anode k 0%Z (zsum zs)])))
+            | None => (false, s)
+            end
+          else (false, s)
+      | None => (false, s)
+      end
+  | OAppendVals x zs =>
+      match sget s x with
+      | Some (k, l) =>
+          if is_array k then (true, sset s x (Some (k, l ++ map (fun z => (None, Some z)) zs))) else (false, s)
+      | None => (false, s)
+      end
+  | OInsHint x p ka va =>
+      match sget s x with
+      | Some (k, l) =>
+          if can_hint k then
+            match sarg_key s ka, sarg_val s va with
+            | Some kz, Some vz =>
+                if hint_tie k (asel k l) (pos_idx p (length l)) kz then (false, s)
+                else (true, sset s x (Some (k, spec_ins k l p kz vz)))
+            | _, _ => (false, s)
+            end
+          else (false, s)
+      | None => (false, s)
+      end
+  | OSort x =>
+      match sget s x with
+      | Some (k, l) => if can_sort k then (true, sset s x (Some (k, spec_sort l))) else (false, s)
+      | None => (false, s)
+      end
   end.
 
 Fixpoint spec_run (s : sstate) (ops : list op) : sstate :=
@@ -332,7 +446,8 @@ Definition writes (o : op) : list nat :=
   match o with
   | ONew x _ | ODel x | OCopyNew x _ | OAssign x _ | OClear x | OIns x _ _ _ | ORemAt x _
   | ORemKey x _ | OAddAll x _ _ | ORemAll x _ | OReserve x _ | OResize x _ _
-  | OAppendRange x _ _ _ | ORemVia _ x _ => [x]
+  | OAppendRange x _ _ _ | ORemVia _ x _ | ONewCap x _ _ | OFind x _ | OEmplace x _ | OAppendVals x _
+  | OInsHint x _ _ _ | OSort x => [x]
   | OSwap x y => [x; y]
   end.
 
@@ -341,11 +456,15 @@ Definition arg_vars (a : arg) : list nat :=
 (* every variable an operation names *)
 Definition mentions (o : op) : list nat :=
   match o with
-  | ONew x _ | ODel x | OClear x | ORemAt x _ | OReserve x _ | ORemVia _ x _ => [x]
+  | ONew x _ | ODel x | OClear x | ORemAt x _ | OReserve x _ | ORemVia _ x _ | ONewCap x _ _
+  | OAppendVals x _ | OSort x => [x]
   | OCopyNew x y | OAssign x y | OSwap x y | ORemAll x y | OAddAll x _ y | OAppendRange x y _ _ => [x; y]
   | OIns x _ ka va => x :: arg_vars ka ++ arg_vars va
   | ORemKey x ka => x :: arg_vars ka
   | OResize x _ va => x :: arg_vars va
+  | OFind x ka => x :: arg_vars ka
+  | OEmplace x args => x :: flat_map arg_vars args
+  | OInsHint x _ ka va => x :: arg_vars ka ++ arg_vars va
   end.
 
 (* "as if the argument had been copied first": a reference to an element becomes the value
@@ -374,6 +493,13 @@ Definition dealias (s : sstate) (t : nat) (o : op) : list op :=
   | OAddAll x p y => if Nat.eqb x y then [OCopyNew t y; OAddAll x p t; ODel t] else [o]
   | ORemAll x y => if Nat.eqb x y then [OCopyNew t y; ORemAll x t; ODel t] else [o]
   | OAppendRange x y i n => if Nat.eqb x y then [OCopyNew t y; OAppendRange x t i n; ODel t] else [o]
+  | OFind x ka =>
+      match sget s x with
+      | Some (k, _) => [OFind x (if has_key k then dealias_key s ka else dealias_val s ka)]
+      | None => [o]
+      end
+  | OEmplace x args => [OEmplace x (map (dealias_val s) args)]
+  | OInsHint x p ka va => [OInsHint x p (dealias_key s ka) (dealias_val s va)]
   | _ => [o]
   end.
 
